@@ -1602,6 +1602,88 @@ class PickComp(Wrapped):
 # component 4b: discovery against the temporaries the REAL atomic writer leaves behind
 # --------------------------------------------------------------------------
 
+# --------------------------------------------------------------------------
+# component: writer → picker composition on REAL file times.  `snap.pick` pins mtimes with os.utime (the picker alone);
+# here several agents write into one shared snapshot directory through the real `write_snapshot`, re-writing files
+# that already exist, and the OS stamps the times.  "Loading the latest snapshot restores … what was written": the
+# fresh state must receive the LAST write; every (re-)write must carry a time not older than any earlier write
+# (a writer that preserves the times of the file it replaces keeps a stale snapshot "latest").
+# --------------------------------------------------------------------------
+
+class LastWriteComp(PickComp):
+    name = "snap.lastwrite"
+    budget = {"quick": 36, "thorough": 400, "search": 200}
+    GAP_S = 0.02
+
+    def gen_raw(self, rng, i):
+        n = rng.choice([2, 3, 3, 4, 5])
+        agents = ["A", "B", "agent"][:rng.choice([2, 2, 3])]
+        seq = [rng.choice(agents) for _ in range(n)]
+        if i % 3 == 0 and n >= 3:                      # the shape write(X) write(Y) write(X): an overwrite is the latest
+            seq[0], seq[1], seq[-1] = agents[0], agents[1], agents[0]
+        return {"cfg": {}, "via": rng.choice(["cfg", "config"]), "seq": [[a, f"v{j + 1}"] for j, a in enumerate(seq)],
+                "store": {"kind": "wmap", "w": [[["node", "a", "weight"], 0.5]]}}
+
+    def impl_raw(self, case):
+        import time as _time
+        from clematis.engine.snapshot import write_snapshot, load_latest_snapshot, _pick_latest_snapshot_path
+        d = _mkdtemp("lastw_")
+        try:
+            with _Env():
+                stamps = []
+                last_path = None
+                for j, (agent, ver) in enumerate(case["seq"]):
+                    if j:
+                        _time.sleep(self.GAP_S)
+                    ctx = mk_ctx({"cfg": case["cfg"], "via": case["via"], "turn": j + 1, "agent": agent}, d)
+                    sd = {"kind": "wmap", "w": [[["node", "a", "weight"], (j + 1) / 8.0]]}
+                    st = mk_state(False, mk_store(sd), None, None, False, False)
+                    last_path = write_snapshot(ctx, st, ver, 0, None)
+                    stamps.append(os.stat(last_path).st_mtime_ns)
+                names = os.listdir(d)
+                mt = {n: os.stat(os.path.join(d, n)).st_mtime_ns for n in names}
+                rank = {m: r for r, m in enumerate(sorted(set(mt.values())))}
+                case["listing"] = [[n, rank[mt[n]]] for n in names]
+                p = _pick_latest_snapshot_path(d)
+                ctx = mk_ctx({"cfg": case["cfg"], "via": case["via"], "turn": 0, "agent": "reader"}, d)
+                fresh = mk_state(False, mk_store(case["store"], fresh=True), None, None, False, False)
+                ret = load_latest_snapshot(ctx, fresh)
+                return {"picked": None if p is None else os.path.basename(p), "in_dir": p is None or os.path.dirname(p) == d,
+                        "load_path": None if ret["path"] is None else os.path.basename(ret["path"]),
+                        "load_ver": ret["version_etag"], "last_file": os.path.basename(last_path),
+                        "last_ver": case["seq"][-1][1], "store": obs_store(sget(fresh, "store")),
+                        "last_w": (len(case["seq"])) / 8.0,
+                        "stamps_non_decreasing": all(a <= b for a, b in zip(stamps, stamps[1:])),
+                        "stamps_distinct": len(set(stamps)) == len(stamps)}
+        finally:
+            shutil.rmtree(d, ignore_errors=True)
+
+    def request_raw(self, case):
+        lst = case.get("listing") or []
+        return {"c": "snap.pick", "listing": [[cps(n), m] for n, m in lst]}
+
+    def monitors_raw(self, case, io):
+        if not isinstance(io, dict) or "__raised__" in io:
+            return [("lastwrite_total", False, f"raised {io}")]
+        if not io["stamps_distinct"] and io["stamps_non_decreasing"]:
+            return []    # the OS clock did not separate two writes (coarse timestamps): nothing can be concluded
+        return [("rewrite_carries_a_newer_time", io["stamps_non_decreasing"],
+                 "a later write_snapshot left an OLDER mtime on its file than an earlier write in the same directory"),
+                ("latest_written_is_loaded", io["load_path"] == io["last_file"] and io["load_ver"] == io["last_ver"],
+                 f"writes {case['seq']} then load_latest_snapshot: restored {io['load_path']} version {io['load_ver']!r}, "
+                 f"the last write was {io['last_file']} version {io['last_ver']!r}")]
+
+    def tags_raw(self, case, io):
+        seq = [a for a, _ in case["seq"]]
+        return ["lastwrite:" + ("overwrite_last" if seq[-1] in seq[:-1] else "new_file_last"), f"lastwrite:n{len(seq)}"]
+
+    def shrink_raw(self, case):
+        seq = case["seq"]
+        for i in range(len(seq) - 1):
+            if len(seq) > 2:
+                yield dict(case, seq=seq[:i] + seq[i + 1:])
+
+
 class _Crash(BaseException):
     """Writer dies between writing the temp body and os.replace (not an Exception: nothing catches it)."""
 
@@ -2032,7 +2114,7 @@ class RoundComp(Wrapped):
         return ["batch"]
 
 
-COMPONENTS = [ChainComp(), WeightComp(), HistoryComp(), SanitizeComp(), LoadComp(), PickComp(), TempComp(), SidecarComp(), RoundComp()]
+COMPONENTS = [ChainComp(), WeightComp(), HistoryComp(), SanitizeComp(), LoadComp(), PickComp(), LastWriteComp(), TempComp(), SidecarComp(), RoundComp()]
 
 
 def _setup(ctx: Ctx) -> None:
